@@ -188,11 +188,14 @@ def run_fsmx(binary, name, props, dev, mf_, og_, workers=1, deadline=None, flags
     env.setdefault('UBSAN_OPTIONS', 'print_stacktrace=1:halt_on_error=1')
     env.setdefault('MSAN_OPTIONS', 'halt_on_error=1')
     t0 = time.time()
+    tmo = timeout or ((deadline or 3000) * 2 + 300)
+    proc = subprocess.Popen(cmd, stdout=subprocess.PIPE, stderr=subprocess.PIPE, text=True, env=env, start_new_session=True)
     try:
-        p = subprocess.run(cmd, stdout=subprocess.PIPE, stderr=subprocess.PIPE, text=True, env=env, timeout=timeout or ((deadline or 3000) + 600))
-        rc, so, se = p.returncode, p.stdout, p.stderr
-    except subprocess.TimeoutExpired as e:
-        rc, so, se = -9, '', 'TIMEOUT after %s s' % e.timeout
+        so, se = proc.communicate(timeout=tmo); rc = proc.returncode
+    except subprocess.TimeoutExpired:
+        try: os.killpg(proc.pid, 9)
+        except Exception: pass
+        so, se = proc.communicate(); rc = -9; se = (se or '') + '\nTIMEOUT after %s s (explorer and its workers killed)' % tmo
     res = None
     if os.path.exists(out):
         try:
@@ -227,6 +230,11 @@ class Verdict:
         self.shapes = 0; self.errors = []
     def add_fsmx(self, run, cfgname, defs, runspec):
         r = run['result']
+        if r is None and ('VX-HANG' in run['stderr'] or run['rc'] == 77):
+            import re as _re
+            m = _re.search(r'VX-INFLIGHT replay=(\S+)', run['stderr'])
+            self.add_violation('call-did-not-return', '%s: an API call of the library did not return (stopped by the watchdog)' % run['name'], dict(kind='fsmx', config=cfgname, defs=defs, variant=runspec.get('variant', 'plain'), header=runspec.get('header', 'shipped'), replay=m.group(1) if m else '', props=['C%02d' % int(self.prop[1:])], flags=[]))
+            return
         if r is None:
             # the explorer process itself died (sanitizer abort before workers were started, crash, timeout)
             self.errors.append('explorer run %s produced no result (rc=%s): %s' % (run['name'], run['rc'], run['stderr'][-1500:]))
@@ -241,11 +249,11 @@ class Verdict:
         for s in r.get('samples', [])[:2]:
             self.samples.append({'config': r['config'], 'edge': s})
         mine = 'C%02d' % int(self.prop[1:])
-        nviol = r['violations'].get(mine, 0)
+        nviol = r['violations'].get(mine, 0) + (r['violations'].get('C18', 0) if any(w['pred'] == 'crash' for w in r['witnesses']) and mine != 'C18' else 0)
         if nviol:
             seen = set()
             for w in r['witnesses']:
-                if w['property'] != mine or w['pred'] in seen: continue
+                if (w['property'] != mine and w['pred'] != 'crash') or w['pred'] in seen: continue   # a call that crashes or never returns is reported by whichever check was exploring it
                 seen.add(w['pred'])
                 rd = dict(kind='fsmx', config=cfgname, defs=defs, variant=runspec.get('variant', 'plain'), header=runspec.get('header', 'shipped'), replay=w['replay'], props=[mine], flags=[f for f in runspec.get('flags', []) if f in ('--replica', '--copy')])
                 text = w['text']
